@@ -34,6 +34,49 @@ fn shapes(b: &syn::Block) -> Shapes {
     s
 }
 
+/// remove `info!(..);` / `warn!(..)` / `debug!(..)` / `trace!(..)` / `error!(..)` from a space-free token string
+/// (string literals are skipped over when matching the closing parenthesis)
+fn strip_log_macros(s: &str) -> String {
+    let b: Vec<char> = s.chars().collect();
+    let mut out = String::new();
+    let mut i = 0;
+    'outer: while i < b.len() {
+        for name in ["info!(", "warn!(", "debug!(", "trace!(", "error!("] {
+            let n: Vec<char> = name.chars().collect();
+            let prev_ident = i > 0 && (b[i - 1].is_alphanumeric() || b[i - 1] == '_');
+            if !prev_ident && b[i..].starts_with(&n) {
+                let mut j = i + n.len();
+                let mut depth = 1;
+                while j < b.len() && depth > 0 {
+                    match b[j] {
+                        '"' => {
+                            j += 1;
+                            while j < b.len() && b[j] != '"' {
+                                if b[j] == '\\' {
+                                    j += 1;
+                                }
+                                j += 1;
+                            }
+                        }
+                        '(' => depth += 1,
+                        ')' => depth -= 1,
+                        _ => {}
+                    }
+                    j += 1;
+                }
+                if j < b.len() && b[j] == ';' {
+                    j += 1;
+                }
+                i = j;
+                continue 'outer;
+            }
+        }
+        out.push(b[i]);
+        i += 1;
+    }
+    out
+}
+
 fn lean_cmp(op: &str, l: &str, r: &str) -> Result<String, String> {
     Ok(match op {
         ">=" => format!("decide ({l} ≥ {r})"),
@@ -177,11 +220,39 @@ pub fn generate(repo: &PathBuf) -> Result<String, String> {
     if !ld.contains("serde_json::from_str::<CacheData>(&contents)") {
         return Err("cache_store.rs: load_cache_data does not parse the whole file with serde_json::from_str::<CacheData>".into());
     }
-    let fl = toks(&impl_fn(&cs, "BootstrapCacheStore", None, "sync_and_flush_to_disk")?.block);
-    for want in ["Self::load_cache_data(&self.config)", "self.data.sync(&data_from_file)", "self.data.perform_cleanup(&self.config)", "self.write()", "self.data.peers.clear()"] {
-        if !fl.contains(want) {
-            return Err(format!("cache_store.rs: sync_and_flush_to_disk: step `{want}` not found"));
+    // sync_and_flush_to_disk: the statements IN ORDER (log macros removed): disabled-guard; [snapshot of the memory];
+    // load + merge; clean-up only under `if with_cleanup`; write, returning on error [after restoring the snapshot];
+    // clear (so only after a successful write); Ok(())
+    let fl_fn = impl_fn(&cs, "BootstrapCacheStore", None, "sync_and_flush_to_disk")?;
+    let fl_stmts: Vec<String> = fl_fn.block.stmts.iter().map(|st| strip_log_macros(&toks(st))).filter(|t| !t.is_empty()).collect();
+    let classify = |t: &str| -> Option<&'static str> {
+        Some(match t {
+            "ifself.config.disable_cache_writing{returnOk(());}" => "guard",
+            "letunmerged=self.data.clone();" => "snapshot",
+            "ifletOk(data_from_file)=Self::load_cache_data(&self.config){self.data.sync(&data_from_file);}else{}"
+            | "ifletOk(data_from_file)=Self::load_cache_data(&self.config){self.data.sync(&data_from_file);}" => "load-merge",
+            "ifwith_cleanup{self.data.perform_cleanup(&self.config);self.data.try_remove_oldest_peers(&self.config);}" => "cleanup-guarded",
+            "self.write().inspect_err(|e|{})?;" | "self.write()?;" => "write-or-return",
+            "ifletErr(e)=self.write(){self.data=unmerged;returnErr(e);}" => "write-or-restore-return",
+            "self.data.peers.clear();" => "clear",
+            "Ok(())" => "ok",
+            _ => return None,
+        })
+    };
+    let mut fl_shape = vec![];
+    for t in &fl_stmts {
+        match classify(t) {
+            Some(k) => fl_shape.push(k),
+            None => return Err(format!("cache_store.rs: sync_and_flush_to_disk: unexpected statement `{t}`")),
         }
+    }
+    let flush_fail_keeps_memory = match fl_shape.as_slice() {
+        ["guard", "load-merge", "cleanup-guarded", "write-or-return", "clear", "ok"] => false,
+        ["guard", "snapshot", "load-merge", "cleanup-guarded", "write-or-restore-return", "clear", "ok"] => true,
+        other => return Err(format!("cache_store.rs: sync_and_flush_to_disk: unexpected statement order {other:?}")),
+    };
+    if !toks(&fl_fn.sig).contains("with_cleanup:bool") {
+        return Err("cache_store.rs: sync_and_flush_to_disk(with_cleanup: bool) expected".into());
     }
 
     // ---- initial_peers.rs: how the start-up path (`PeersArgs::get_bootstrap_addr`) consumes the result of load_cache_data
@@ -204,7 +275,40 @@ pub fn generate(repo: &PathBuf) -> Result<String, String> {
         }
     }
 
-    let mut s = header("ant-bootstrap/src/{config.rs,lib.rs,cache_store.rs,initial_peers.rs}");
+    // ---- ant-networking/src/driver.rs: the periodic save (inside `tokio::select!`, so read from the token stream of the
+    // whole file): clone the store, swap in a fresh empty one, spawn the flush of the old one, only log its error;
+    // then scale the interval
+    let drv = toks(&parse_file(&repo.join("ant-networking/src/driver.rs"))?);
+    if drv.matches("sync_and_flush_to_disk(").count() != 1 {
+        return Err("driver.rs: expected exactly one call of sync_and_flush_to_disk".into());
+    }
+    let seq = [
+        "letconfig=bootstrap_cache.config().clone();",
+        "letmutold_cache=bootstrap_cache.clone();",
+        "letnew=matchBootstrapCacheStore::new(config){Ok(new)=>new,Err(err)=>{",
+        "*bootstrap_cache=new;",
+        "spawn(asyncmove{ifletErr(err)=old_cache.sync_and_flush_to_disk(",
+        "letscaled=current_interval.period().as_secs().saturating_mul(bootstrap_cache.config().cache_save_scaling_factor);",
+        "letnew_duration=Duration::from_secs(std::cmp::min(scaled,max_cache_save_duration.as_secs()));",
+        "*current_interval=interval(new_duration);",
+    ];
+    let mut pos = 0usize;
+    for want in seq {
+        match drv[pos..].find(want) {
+            Some(k) => pos += k + want.len(),
+            None => return Err(format!("driver.rs: periodic bootstrap-cache save: step `{want}` not found (in this order)")),
+        }
+    }
+    let after_call = &drv[drv.find("old_cache.sync_and_flush_to_disk(").unwrap() + "old_cache.sync_and_flush_to_disk(".len()..];
+    let periodic_cleans = if after_call.starts_with("true){error!(") {
+        true
+    } else if after_call.starts_with("false){error!(") {
+        false
+    } else {
+        return Err("driver.rs: periodic bootstrap-cache save: the flush is not `if let Err(err) = old_cache.sync_and_flush_to_disk(<bool literal>) { error!(..) }`".into());
+    };
+
+    let mut s = header("ant-bootstrap/src/{config.rs,lib.rs,cache_store.rs,initial_peers.rs}, ant-networking/src/driver.rs");
     s.push_str("namespace SafeNet.Gen.BootCache\n");
     s.push_str(&format!("/-- `MAX_PEERS` (config.rs) -/\ndef maxPeers : Nat := {max_peers}\n"));
     s.push_str(&format!("/-- `MAX_ADDRS_PER_PEER` (config.rs) -/\ndef maxAddrsPerPeer : Nat := {max_addrs}\n"));
@@ -220,6 +324,8 @@ pub fn generate(repo: &PathBuf) -> Result<String, String> {
     s.push_str(&format!("/-- `BootstrapCacheStore::write` goes through `AtomicWriteFile::options().open(&self.cache_path)` … `commit()` and nothing else touches the path -/\ndef writeAtomic : Bool := {}\n", lean_bool(atomic)));
     s.push_str(&format!("/-- `load_cache_data` runs `perform_cleanup` on what it parsed -/\ndef loadCleans : Bool := {}\n", lean_bool(load_cleans)));
     s.push_str(&format!("/-- `PeersArgs::get_bootstrap_addr` consumes `load_cache_data` with `if let Ok(data) = …`: no load error reaches the caller -/\ndef startupIgnoresLoadError : Bool := {}\n", lean_bool(startup_ignores)));
+    s.push_str(&format!("/-- `sync_and_flush_to_disk` is, in this order: disabled-guard; {}load + `sync`; `perform_cleanup` only under `if with_cleanup`; `write`, returning on error{}; `peers.clear()` (so only after a successful write). `true`: a failed write leaves the in-memory cache as it was before the merge; `false`: it leaves the merge (memory ∪ file) -/\ndef flushFailKeepsMemory : Bool := {}\n", if flush_fail_keeps_memory { "snapshot of the memory; " } else { "" }, if flush_fail_keeps_memory { " after restoring the snapshot" } else { "" }, lean_bool(flush_fail_keeps_memory)));
+    s.push_str(&format!("/-- driver.rs, periodic save: `old_cache = cache.clone(); cache = BootstrapCacheStore::new(config); spawn(old_cache.sync_and_flush_to_disk(<this literal>))`, the error only logged; then the interval is scaled to `min(period.as_secs().saturating_mul(cache_save_scaling_factor), max)` -/\ndef periodicFlushCleans : Bool := {}\n", lean_bool(periodic_cleans)));
     s.push_str("end SafeNet.Gen.BootCache\n");
     Ok(s)
 }
